@@ -47,6 +47,9 @@ CONTAINERS = [
     ("late-table2x2", LONG_TEXT + "\n\n{| ATTR\n| a1 || a2\n|-\n| b1 || ", "\n|}"),
     ("center-in-cell", "{|\n| c1 || <center>", "</center>\n|}"),
     ("late-table1", "intro\n\n{| ATTR\n|", "\n|}"),
+    # content inside a section heading / inside a space-indented preformatted line
+    ("heading", "== h ", " ==\nbody\n"),
+    ("spacepre", " pre ", "\n"),
 ]
 
 LEAVES = [
@@ -84,6 +87,12 @@ LEAVES = [
     ("table-of-lists", "\n{|\n|\n* i1\n* i2\n* i3\n* i4\n* i5\n* i6\n* i7\n|\n* j1\n* j2\n|}\n"),
     ("long-list", "\n" + "".join("* item %d\n" % i for i in range(8))),
     ("big-nested-table", "\n{|\n| " + LONG_TEXT + " " + LONG_TEXT + "\n|-\n| more\n|}\n"),
+    # inline HTML block elements (usable inside a heading or a preformatted line)
+    ("html-list", "<ul><li>one</li><li>two</li></ul>"),
+    ("html-table", "<table><tr><td>c1</td><td>c2</td></tr></table>"),
+    # two nesting violations at different depths below one neutral wrapper
+    ("two-images-nested", "<span>aa [[File:a.png]] bb <b>[[File:b.png]]</b></span>"),
+    ("two-galleries-nested", "<div>aa <gallery>\nFile:a.png|c\n</gallery> bb <div><gallery>\nFile:b.png|c\n</gallery></div></div>"),
     ("wide-table", "\n{|\n" + "|-\n" + "".join("| c%d " % i + ("|" if i < 7 else "\n") for i in range(8)) + "|}\n"),
 ]
 
@@ -110,7 +119,11 @@ ATTR_SHAPES = [  # (outer container, inner container, leaf, which container carr
     ("div", "none", "image", 1),
     ("table2x2", "none", "list", 1),
     ("section", "div", "word", 2),
+    ("table1", "div", "table", 2),     # a scrollable div inside a cell that itself holds a nested table
+    ("div", "table1", "table", 2),     # a table with symbolic attributes whose cell holds a nested table
 ]
+QUICK_ATTR_SHAPES = [0, 1, 3, 4, 5, 6, 7, 8, 9, 10, 11, 18, 19]
+QUICK_LENGTH_SHAPES = [0, 3, 4, 5, 6, 18, 19]  # passes that scale lengths are the slow ones: fewer documents in the quick tier
 
 
 def cidx(name):
